@@ -246,7 +246,7 @@ def do_check(pid, tier, seed, workers):
         R.samples = R.samples[seed % max(1, len(R.samples)):] + R.samples[:seed % max(1, len(R.samples))]
     # vacuity guard: classes the check says must be populated
     for cname in getattr(mod, "EXPECT_CLASSES", {}).get(tier, getattr(mod, "EXPECT_CLASSES", {}).get("*", [])):
-        if R.classes[cname] == 0 and not R.mismatches:
+        if R.classes[cname] == 0 and not R.mismatches and not any(c.startswith("internal interface changed") for c in R.caps):
             raise HarnessError(f"vacuous: class {cname!r} has no member in tier {tier}")
     nviol, known_seen, nsig = triage(pid, R)
     wall = time.time() - t0
